@@ -15,7 +15,7 @@ Depth1 == AllScalars \cup {<<"arr", xs>> : xs \in Seqs(MaxMembers, {S(1), S(6), 
 \* depth 2: containers of a few depth-1 containers and scalars
 Inner == {<<"arr", <<>>>>, <<"arr", <<S(6), S(3)>>>>, <<"obj", <<>>>>, <<"obj", <<<<2, S(8)>>, <<2, S(12)>>>>>>, <<"obj", <<<<1, S(10)>>, <<4, S(5)>>>>>>, S(2), S(16)}
 Depth2 == {<<"arr", xs>> : xs \in Seqs(2, Inner)} \cup {<<"obj", ms>> : ms \in Seqs(2, {<<k, x>> : k \in {2, 4}, x \in Inner})}
-Patterns == {<<1>>, <<2>>, <<3>>, <<1, 2, 4>>, <<2, 1, 1, 3>>, <<5, 1, 2>>, <<1, 1, 3, 1, 2>>}
+Patterns == {<<1>>, <<2>>, <<3>>, <<1, 2, 4>>, <<2, 1, 1, 3>>, <<5, 1, 2>>, <<1, 1, 3, 1, 2>>, <<6>>, <<7, 1, 1>>}
 Values == IF OnlyScalars THEN AllScalars \cup {<<"arr", <<x>>>> : x \in AllScalars} ELSE Depth1 \cup Depth2
 Cases == {<<v, pat>> : v \in Values, pat \in Patterns}
 CaseSeq == SetToSeq(Cases)
